@@ -20,7 +20,7 @@ Definition ctrunc (q : Q) : Z := Z.quot (Qnum q) (Zpos (Qden q)).
 Definition pwm_of (a : Q) : Z := clamp255 (ctrunc (a * 255 + (1 # 2))).
 
 (* the shared block: clamp to -1..1, [store], effective = inverted ? -speed : speed, abs (capped at 1), pwm,
-   direction pins, analogWrite, mode *)
+   direction pins (both LOW iff effective == 0.0f, else by its sign), analogWrite, mode (coast iff effective == 0.0f) *)
 Definition d_apply (p : mpins) (m : dmotor) (store : bool) (value : Q) : dmotor * list dev :=
   let '(in1, in2, en) := p in
   let sp := Qred (qclamp (-(1)) 1 value) in
@@ -28,10 +28,10 @@ Definition d_apply (p : mpins) (m : dmotor) (store : bool) (value : Q) : dmotor 
   let ab0 := if Qleb 0 eff then eff else - eff in
   let ab := if Qltb 1 ab0 then 1 else ab0 in
   let pwm := pwm_of ab in
-  let dirs := if (pwm =? 0)%Z then [EDW in1 false; EDW in2 false]
+  let dirs := if Qeqb eff 0 then [EDW in1 false; EDW in2 false]
               else if Qltb 0 eff then [EDW in1 true; EDW in2 false]
               else [EDW in1 false; EDW in2 true] in
-  (mkDM (if store then sp else dm_speed m) (dm_inv m) (if (pwm =? 0)%Z then Coast else Drive),
+  (mkDM (if store then sp else dm_speed m) (dm_inv m) (if Qeqb eff 0 then Coast else Drive),
    dirs ++ [EAW en pwm]).
 
 (* stop: speed = 0; both direction pins HIGH; analogWrite(en, 0); mode = brake
@@ -143,23 +143,19 @@ Fixpoint hmrun (p : mpins) (m : motor) (ops : list mop) : list tev * list dget *
   end.
 
 (* ---- the guard ---- *)
-(* a speed so small that the device's PWM count is 0 although the host drives: 0 < |x| < 1/510 *)
-Definition tiny (x : Q) : bool := negb (Qeqb x 0) && Qltb (qabs x) (1 # 510).
-
 Definition num_ok (v : pynum) : bool := match qof v with Some _ => true | None => false end.
 Definition speed_ok (v : pynum) : bool := num_ok v && Qleb (-(1)) (qval v) && Qleb (qval v) 1.
 Definition dur_ok (v : pynum) : bool := num_ok v && Qleb 0 (qval v).
 
-(* every speed the command applies (after the host's own arithmetic) is 0 or at least 1/510 in magnitude *)
+(* speeds numbers within -1..1, durations numbers >= 0 (speeds of any magnitude: also 0 < |x| < 1/510, where the PWM count is 0) *)
 Definition motor_in_range (m : motor) (o : mop) : bool :=
-  let evs := mevents (mstep m o) in
   match o with
   | MSetSpeed v => speed_ok v
   | MBackward ov => speed_ok (dflt_back ov)
   | MRamp t d => speed_ok t && dur_ok d
   | MRunFor d v => dur_ok d && speed_ok v
   | _ => true
-  end && forallb (fun x => negb (tiny x)) (lvl_applied evs).
+  end.
 
 Fixpoint motor_guard_flags (m : motor) (ops : list mop) : list bool :=
   match ops with
